@@ -280,6 +280,54 @@ def run_loop(ctx):
                     d.file, d.line)
 
 
+def breakpoint_resolution(ctx):
+    repo = ctx.repo
+    rule = 'C12.line-breakpoint-scans-in-source-order'
+    ctx.rule(rule, 'a line breakpoint is resolved by scanning the statement '
+             'records in SOURCE order (they are stored in address order, '
+             'and procedures are emitted after the main program) for the '
+             'first non-empty statement at or after the line; the '
+             'breakpoint address is that statement\'s start offset')
+    from .. import pat
+    from ..astutil import canon
+    f = repo.func('qvm.dbg', 'Cmd.parse_breakpoint_spec')
+    loops = [n for n in ast.walk(f.node) if isinstance(n, ast.For) and
+             'stmts' in canon(n.iter, f.node)]
+    construct = f'{f.file}:Cmd.parse_breakpoint_spec:scan'
+    ok_sorted = any('sorted(self.debug_info.stmts' in canon(n.iter, f.node)
+                    and 'source_start_offset' in canon(n.iter, f.node)
+                    for n in loops)
+    ctx.instance(rule, construct, sample={'loops': len(loops),
+                                          'sorted_by_source': ok_sorted})
+    if not loops:
+        raise AnalysisError('anchor vanished: statement scan in '
+                            'parse_breakpoint_spec')
+    if not ok_sorted:
+        ctx.finding(rule, construct,
+                    'line breakpoints scan the statement records in address '
+                    'order instead of source order: a line inside a '
+                    'procedure written above later main-program code '
+                    'resolves to the wrong statement', f.file,
+                    loops[0].lineno)
+    ok = pat.has('if _S.source_start_line >= _L and '
+                 '_S.end_offset - _S.start_offset > 0:\n    ...', f.node) \
+        and pat.has('Breakpoint(..., start_addr=_S.start_offset)', f.node)
+    ctx.instance(rule, construct + ':match')
+    if not ok:
+        ctx.finding(rule, construct + ':match',
+                    'the line breakpoint is no longer placed at the start '
+                    'offset of the first non-empty statement at or after '
+                    'the line', f.file, f.line)
+    b = repo.func('qvm.dbg', 'Breakpoint.__call__')
+    ok = pat.has('return cpu.pc == self.start_addr', b.node) and \
+        pat.has('return self.start_addr <= cpu.pc < self.end_addr', b.node)
+    ctx.instance(rule, f'{b.file}:Breakpoint.__call__')
+    if not ok:
+        ctx.finding(rule, f'{b.file}:Breakpoint.__call__',
+                    'breakpoint matching is no longer pc == start_addr '
+                    '(exact) / start <= pc < end (range)', b.file, b.line)
+
+
 def run(ctx):
     ctx.clauses = [
         'who-may-write: debugger touches the machine only through the '
@@ -296,6 +344,7 @@ def run(ctx):
     pure_predicates(ctx, cg)
     halt_guard(ctx)
     run_loop(ctx)
+    breakpoint_resolution(ctx)
     return ('Transparency as a structural clause: effects (who-may-write) '
             'analysis of qvm/dbg.py and qvm/eval.py against the cpu API, '
             'CFG pairing of temporary breakpoints including exceptional '
